@@ -66,6 +66,8 @@ WHITELIST = [
          slice=dict(scope="body", first_decl="selected_edgebreaker_method", count=2)),
     dict(cls="ExpertEncoder", fn="EncodeMeshToBuffer", suffix="_method", opaque=True,
          slice=dict(scope="body", first_decl="encoding_method", count=2)),
+    dict(cls="DynamicIntegerPointsKdTreeDecoder", fn="GetAxis", targs=[6], suffix="_branch",
+         chain=dict(var="num_remaining_points", inputs=[])),
     dict(cls="OctahedronToolBox", fn="IsInDiamond"),
     dict(cls="OctahedronToolBox", fn="InvertDiamond"),
     dict(cls="OctahedronToolBox", fn="ModMax"),
@@ -114,6 +116,7 @@ TU_TEXT = """\
 #include "draco/compression/attributes/prediction_schemes/prediction_scheme_encoder_factory.cc"
 #include "draco/compression/mesh/mesh_edgebreaker_encoder.cc"
 #include "draco/compression/expert_encode.cc"
+#include "draco/compression/point_cloud/algorithms/dynamic_integer_points_kd_tree_decoder.h"
 #include "draco/compression/attributes/prediction_schemes/mesh_prediction_scheme_parallelogram_shared.h"
 #include "draco/mesh/corner_table.h"
 #include "draco/compression/mesh/mesh_sequential_decoder.cc"
@@ -130,6 +133,7 @@ template int32_t ConvertSymbolToSignedInt<uint32_t>(uint32_t);
 template int32_t AddAsUnsigned<int32_t>(int32_t, int32_t);
 template bool ComputeParallelogramPrediction<CornerTable, int32_t>(int, const CornerIndex, const CornerTable *,
     const std::vector<int32_t> &, const int32_t *, int, int32_t *);
+template class DynamicIntegerPointsKdTreeDecoder<6>;
 template class RAnsSymbolEncoder<12>;
 template class RAnsDecoder<12>;
 template bool DecodeVarint<uint32_t>(uint32_t *, DecoderBuffer *);
